@@ -16,7 +16,7 @@ from typing import Any, Dict, List, Optional, Set, Tuple
 from .facts import Facts, FuncInfo, AnalysisError, norm
 from .grammar import Grammar, Production
 from .lexmodel import LexModel
-from .symexec import SymExec, Path, ProdVal, ListVal, DictVal, freeze, show, is_const, Event
+from .symexec import Unrecognised, SymExec, Path, ProdVal, ListVal, DictVal, freeze, show, is_const, Event
 from . import opmodel as om
 
 
@@ -93,7 +93,14 @@ def build(F: Facts, g: Grammar, lm: LexModel) -> Templates:
         by_prod = {}
         inline_values_next: Dict[str, List[Tuple[int, Any]]] = {}
         for p in g.productions[1:]:
-            tpls = _templates_for(F, g, lm, p, kinds, inlinable, inline_values)
+            try:
+                tpls = _templates_for(F, g, lm, p, kinds, inlinable, inline_values)
+            except Unrecognised:
+                # while the kinds of the right-hand side symbols are still being computed (first rounds of the fixpoint) an
+                # action may meet a value it cannot take apart yet; the production is looked at again in the next round
+                if all(s not in kinds or kinds[s] for s in p.rhs):
+                    raise
+                tpls = []
             by_prod[p.index] = tpls
             for t in tpls:
                 if t.raises is None:
